@@ -174,7 +174,7 @@ impl<T: Socket + ?Sized> Worker<T> {
                 match self.socket.recv() {
                     Ok(Packet::Ack(received_block_number)) => {
                         let diff = received_block_number.wrapping_sub(block_number);
-                        if diff <= self.windowsize {
+                        if diff < window.len() {
                             block_number = received_block_number.wrapping_add(1);
                             window.remove(diff + 1)?;
                             break;
